@@ -130,6 +130,38 @@ def check_case(ctx: Ctx, c: Dict[str, Any], k: int = 0) -> None:
     pst = guarded("PointSetTransformer", lambda: PointSetTransformer(t, grid=g2, axes="world", to_grid=g, to_axes="grid"))
     if pst is not None:
         cmp("PointSetTransformer", guarded("PointSetTransformer", lambda: pst(xw.float().unsqueeze(0))), exp_og.unsqueeze(0), tol=ATOL * scale * 20)
+    # ... the transformer given only the input grid/axes of the points: output in the same coordinates
+    pst = guarded("PointSetTransformer", lambda: PointSetTransformer(t, grid=g2, axes=cube2), form="grid+axes")
+    if pst is not None:
+        cmp("PointSetTransformer[grid, axes]", guarded("PointSetTransformer", lambda: pst(x2.float().unsqueeze(0)), form="grid+axes"), apply_hom(M2, x2).unsqueeze(0), tol=ATOL * scale * 5, form="grid+axes")
+    pst = guarded("PointSetTransformer", lambda: PointSetTransformer(t, grid=g2, axes=cube2.value), form="grid+axes str")
+    if pst is not None:
+        cmp("PointSetTransformer[grid, axes]", guarded("PointSetTransformer", lambda: pst(x2.float().unsqueeze(0)), form="grid+axes str"), apply_hom(M2, x2).unsqueeze(0), tol=ATOL * scale * 5, form="grid+axes str")
+    # ... a copy with other parameters (data(arg)) taken from an already evaluated transform describes the NEW parameters in every view
+    if hasattr(t, "data") and not hasattr(t, "transforms") and callable(getattr(t, "data", None)):
+        t_id = guarded("construct", lambda: build(name, parts, g, holder, set_params=False), role="data(arg) source")
+        pnew = guarded("data()", lambda: t.data().detach().clone())
+        if t_id is not None and pnew is not None:
+            try:
+                t_id(x)
+                t_id.disp()
+                t_id.update()
+            except Exception:
+                pass
+            tn = guarded("data(arg)", lambda: t_id.data(pnew))
+            if tn is not None:
+                co = g.coords(align_corners=g.align_corners()).reshape(-1, D)
+                exp_u = apply_hom(M, co.to(torch.float64)) - co.to(torch.float64)
+                u = guarded("data(arg).disp", lambda: tn.disp())
+                if u is not None:
+                    u = u[0].movedim(0, -1).reshape(-1, D)
+                    cmp("data(arg).disp", u, exp_u, tol=ATOL * scale * 20, mask=inside(co.to(torch.float64)).unsqueeze(-1).expand_as(exp_u) if nonrigid else None)
+                cmp("data(arg).points[world]", guarded("data(arg).points[world]", lambda: tn.points(xw.float(), axes="world")), apply_hom(W, xw), tol=ATOL * scale * 5)
+                cmp("data(arg).call", guarded("data(arg).call", lambda: tn(x)), apply_hom(M, P).unsqueeze(0))
+                # ... and the source of the copy is still the identity
+                y0 = guarded("data(arg) source", lambda: t_id(x))
+                if y0 is not None and max_err(y0, x) > 1e-5:
+                    bad("data(arg) source", "taking a copy with other parameters changed the transform it was taken from")
     # 4. dense displacement on its own grid, on the same grid with the other cube convention, and on another grid
     for view, gg in (("disp[own]", g), ("disp[own, other align_corners]", g.align_corners(not g.align_corners())), ("disp[other]", g2)):
         ax = Axes.from_grid(gg)
